@@ -89,6 +89,25 @@ func runCase(t *chaingen.Tree, d drive, plan []mgrsim.Op) ([]mgrsim.Obs, *failur
 			stopped = true
 			break
 		}
+		broken := len(o.Best) == 0
+		for _, id := range o.Best {
+			if id < 0 {
+				broken = true
+			}
+		}
+		if broken {
+			report("c19-best-chain-broken", "after %v the best chain %v has a height without an index or a block that the generator does not know (-1 / -2)", op, o.Best)
+			stopped = true
+			break
+		}
+		if !mgrsim.HasTwin(t, plan) {
+			for _, k := range o.Known {
+				if k.Body && !k.Good {
+					report("c19-stored-body-not-the-submitted-block", "after %v the stored body of block %d differs from the block that was submitted (no same-id copy is part of the plan; modes %v)", op, k.ID, d.Modes)
+					break
+				}
+			}
+		}
 		for _, id := range o.Polled {
 			if id != prev.Best[0] && id != o.Best[0] {
 				report("c19-intermediate-tip-visible", "while %v ran (tip %d before, %d after) a concurrent reader was served tip %d", op, prev.Best[0], o.Best[0], id)
@@ -197,6 +216,7 @@ func runCase(t *chaingen.Tree, d drive, plan []mgrsim.Op) ([]mgrsim.Obs, *failur
 			}
 		default:
 			to := twin.Do(op)
+			tprev = to
 			if len(o.ListenerPruned) > 0 {
 				// the listener pruned below h from inside the notification: on the new best chain every body below
 				// h is gone (bodies are missing from the bottom only), every body from h up is there, and nothing
@@ -316,6 +336,16 @@ func runCase(t *chaingen.Tree, d drive, plan []mgrsim.Op) ([]mgrsim.Obs, *failur
 		}
 		if d.Probe {
 			probe(s, o, stats, report)
+		}
+		// "history, header serving ... keep working and produce the same [answers] as on an unpruned node":
+		// while both nodes are on the same best chain the two calls answer identically
+		if !diverged && fmt.Sprint(tprev.Best) == fmt.Sprint(o.Best) {
+			for _, api := range []string{"history", "headers", "bestindex", "tipstate"} {
+				if a, b := mgrsim.ReadAPI(s, api), mgrsim.ReadAPI(twin, api); a != b {
+					report("c19-"+api+"-differs-from-twin", "after %v %s answers %.200q on the pruned node and %.200q on the unpruned twin (same best chain)", op, api, a, b)
+				}
+			}
+			stats["read-calls-compared-with-twin"] += 4
 		}
 		prev = o
 	}
@@ -518,6 +548,21 @@ func run(c *hx.Ctx) {
 			res.CountN(k, v)
 		}
 		res.CountN("calls", len(cs.Plan))
+		maxKids, leaves := 0, 0
+		for _, n := range t.Nodes {
+			if len(n.Children) > maxKids {
+				maxKids = len(n.Children)
+			}
+			if len(n.Children) == 0 {
+				leaves++
+			}
+		}
+		if maxKids >= 3 {
+			res.Count("tree:hub(node-with>=3-children)")
+		}
+		if leaves >= 4 {
+			res.Count("tree:>=4-leaves")
+		}
 		if f != nil {
 			small := shrink(t, d, cs.Plan, f.kind)
 			_, f2, _ := runCase(t, d, small)
